@@ -319,7 +319,7 @@ def processHand (dev : Dev) (st : SState) (msg : Req) : SState × List Out × Op
     | .ok (.ok m) => ({ req := some msg, treqs := m }, m.flatMap (forward dev), none)
     | .ok (.error e) => ({ req := some msg, treqs := [] }, [], some e)
     | .error _ => ({ req := some msg, treqs := [] }, [], some .noTarget)
-  else if isPoll msg then (st, st.treqs.flatMap (pollOne dev), none)
+  else if isPoll msg then ({ st with polls := st.polls + 1 }, st.treqs.flatMap (pollOne dev st.polls), none)
   else (st, [], some .unknownType)
 
 set_option linter.unusedSimpArgs false in
@@ -346,13 +346,58 @@ def retAfter : List Event → Option Ret
     else if isSub m then some (.invalid .duplicate)
     else some (.invalid .unknownType)
 
-/-- once subscribed, a stream can only be polled: the closed form of the loop. -/
-theorem run_subscribed (dev : Dev) (r0 : Req) (m : TReqs) (evs : List Event) :
-    run dev { req := some r0, treqs := m } evs =
-      ((List.replicate (leadingPolls evs) (m.flatMap (pollOne dev))).flatten, retAfter evs) := by
-  induction evs with
+/-- everything the relay produces is a relayed message of that target. -/
+theorem relays_mem (t : Str) (msgs : List DevMsg) (o : Out) (h : o ∈ relays t msgs) : ∃ id, o = .relayed t id := by
+  induction msgs with
+  | nil => simp [relays] at h
+  | cons m rest ih =>
+    cases m with
+    | resp id =>
+      simp only [relays, List.mem_cons] at h
+      rcases h with h | h
+      · exact ⟨id, h⟩
+      · exact ih h
+    | sync =>
+      simp only [relays, List.mem_cons] at h
+      rcases h with h | h
+      · exact ⟨syncId, h⟩
+      · exact ih h
+    | other id => simp [relays] at h
+
+theorem roundRelays_mem (t : Str) (rounds : List (List DevMsg)) (k : Nat) (o : Out)
+    (h : o ∈ roundRelays t rounds k) : ∃ id, o = .relayed t id := by
+  unfold roundRelays at h
+  split at h
+  · simp at h
+  · exact relays_mem t _ o h
+
+/-- the identity of a relayed message. -/
+def msgId : DevMsg → Str
+  | .resp id => id
+  | .sync => syncId
+  | .other id => id
+
+/-- a round without foreign messages is relayed whole, in order. -/
+theorem relays_all (t : Str) (msgs : List DevMsg) (h : msgs.any isOther = false) :
+    relays t msgs = msgs.map (fun m => Out.relayed t (msgId m)) := by
+  induction msgs with
   | nil => rfl
+  | cons m rest ih =>
+    simp only [List.any_cons, Bool.or_eq_false_iff] at h
+    cases m with
+    | resp id => simp [relays, msgId, ih h.2]
+    | sync => simp [relays, msgId, ih h.2]
+    | other id => simp [isOther] at h
+
+/-- once subscribed, a stream can only be polled: the closed form of the loop — the i-th poll in
+    a row fetches round (polls so far + i + 1) of every connected subscribed target. -/
+theorem run_subscribed (dev : Dev) (r0 : Req) (m : TReqs) (evs : List Event) :
+    ∀ p : Nat, run dev { req := some r0, treqs := m, polls := p } evs =
+      ((List.range (leadingPolls evs)).flatMap (fun i => m.flatMap (pollOne dev (p + i))), retAfter evs) := by
+  induction evs with
+  | nil => intro p; rfl
   | cons e rest ih =>
+    intro p
     cases e with
     | eof => rfl
     | recvErr => rfl
@@ -363,7 +408,16 @@ theorem run_subscribed (dev : Dev) (r0 : Req) (m : TReqs) (evs : List Event) :
         simp [run, process_eq, processHand, hs, hp, leadingPolls, retAfter]
       · have hs' : isSub q = false := by simpa using hs
         by_cases hp : isPoll q = true
-        · simp [run, process_eq, processHand, hs', hp, leadingPolls, retAfter, ih, List.replicate_succ]
+        · simp only [run, process_eq, processHand, hs', hp, leadingPolls, retAfter, Bool.false_and,
+            Bool.true_and, Option.isNone_some, Bool.false_eq_true, if_false, if_true, ih (p + 1)]
+          simp only [List.range_succ_eq_map, List.flatMap_cons, List.flatMap_map, Nat.add_zero]
+          congr 2
+          have : (fun i => List.flatMap (pollOne dev (p + 1 + i)) m) =
+              (fun a : Nat => List.flatMap (pollOne dev (p + a.succ)) m) := by
+            funext i
+            have : p + 1 + i = p + i.succ := by omega
+            rw [this]
+          rw [this]
         · have hp' : isPoll q = false := by simpa using hp
           simp [run, process_eq, processHand, hs', hp', leadingPolls, retAfter]
 
